@@ -32,7 +32,11 @@ class Cfg:
     selection: bool = False
     flavours: str = "s"  # s(ync) a(sync)
     kwargs: bool = False  # last dependency passed by keyword
-    routes: str = "d"  # how the configuration reaches the DAG: d(ecorators) a(ttribute assignment) c(onfig_from_dict)
+    # how the configuration reaches the DAG: d(ecorators) a(ttribute assignment of max_concurrency) c(onfig_from_dict with
+    # priority + is_sequential per node) p(config_from_dict with the priority only: is_sequential must survive)
+    # t(config_from_dict addressed through a tag shared by all nodes: one priority for all, is_sequential must survive)
+    routes: str = "d"
+    nested: bool = False  # one node may live in a nested DAG (its attributes must survive the embedding)
     profiling: bool = False  # also explore cfg.TAWAZI_PROFILE_ALL_NODES = True
     mc_fixed: int = 0  # 0: symbolic
     distinct_cp: bool = False  # assume pairwise distinct compound priorities; the C06 monitor is then strict
@@ -335,6 +339,17 @@ def run_sched(cfg: Cfg, c: Ctx) -> Any:
     if route == "c":
         prio0 = {l: (c.int("p_at_build_" + l) if cfg.sym_prio else 0) for l in labels}
         seq0 = {l: False for l in labels}
+    elif route == "p":
+        prio0 = {l: (c.int("p_at_build_" + l) if cfg.sym_prio else 0) for l in labels}
+    elif route == "t":
+        prio0 = {l: (c.int("p_at_build_" + l) if cfg.sym_prio else 0) for l in labels}
+        shared = c.int("p_shared") if cfg.sym_prio else 0
+        prio = {l: shared for l in labels}
+    wrapped: Optional[str] = None
+    if cfg.nested:
+        k = c.choose(N + 1, "nested")
+        if k:
+            wrapped = labels[k - 1]
     fail: Dict[str, Any] = {l: False for l in labels}
     if cfg.faults:
         fail = {l: c.bool("fail_" + l) for l in labels}
@@ -355,7 +370,7 @@ def run_sched(cfg: Cfg, c: Ctx) -> Any:
     if sel[0] == "root":
         # roots of the id graph: nodes without any dependency, here every node takes the DAG input or a
         # constant - only dependency-free user nodes that take no argument at all are roots
-        c.assume(not alldeps[sel[1]] and sel[1] not in act)  # type: ignore[index]
+        c.assume(not alldeps[sel[1]] and sel[1] not in act and sel[1] != wrapped)  # type: ignore[index]
     exec_set = closure_spec(labels, alldeps, sel)
     dbg: Optional[str] = None
     if cfg.debug_leaf:
@@ -394,14 +409,30 @@ def run_sched(cfg: Cfg, c: Ctx) -> Any:
 
     # a node that takes the DAG input is neither a root of the id graph nor reachable by the debug rule
     root_takes_input = sel[0] != "root" and dbg is None
-    xns = {l: xn(make_fn(l), priority=prio0[l], is_sequential=seq0[l], resource=Resource(res[l]), debug=(l == dbg)) for l in labels}
+    xns = {l: xn(make_fn(l), priority=prio0[l], is_sequential=seq0[l], resource=Resource(res[l]), debug=(l == dbg),
+                 tag=("g", "t_" + l)) for l in labels}
+    callers: Dict[str, Any] = dict(xns)
+    if wrapped is not None:
+        # the node lives in a DAG of its own that the outer describing function calls
+        inner_xn = xns[wrapped]
+        subs = {
+            0: lambda: inner_xn(),
+            1: lambda a: inner_xn(a),
+            2: lambda a, b: inner_xn(a, b),
+            3: lambda a, b, c_: inner_xn(a, b, c_),
+            4: lambda a, b, c_, d_: inner_xn(a, b, c_, d_),
+        }
+        arity = (1 if (sel[0] != "root" and dbg is None) else 0) + len(deps[wrapped])
+        sub_fn = subs[arity]
+        sub_fn.__name__ = sub_fn.__qualname__ = "sub"
+        callers[wrapped] = dag(sub_fn)
     kwname = "kw"
 
     def call_shape(l: str, x: Any, r: Dict[str, Any]) -> Tuple[List[Any], Dict[str, Any]]:
         args: List[Any] = [x] if (root_takes_input or deps[l]) and root_takes_input else []
         ds = [r[d] for d in deps[l]]
         kw: Dict[str, Any] = {}
-        if cfg.kwargs and ds:
+        if cfg.kwargs and ds and l != wrapped:  # (a nested DAG takes positional arguments only)
             kw[kwname] = ds.pop()
         return args + ds, kw
 
@@ -413,29 +444,34 @@ def run_sched(cfg: Cfg, c: Ctx) -> Any:
                 kw["twz_active"] = x if act[l] == "IN" else r[act[l]]
                 if act_indexed:
                     kw["twz_active"] = kw["twz_active"][0]
-            r[l] = xns[l](*args, **kw)
+            r[l] = callers[l](*args, **kw)
         return tuple(r[l] for l in labels)
 
     describe.__qualname__ = describe.__name__ = "pipe"
     pipe = dag(describe, max_concurrency=mc0, is_async=(flavour == "a"))
+    ids = {l: ("sub." + l if l == wrapped else l) for l in labels}  # node ids (a nested node carries the dotted prefix)
     if route == "a":
         pipe.max_concurrency = mc
     elif route == "c":
-        pipe.config_from_dict({"nodes": {l: {"priority": prio[l], "is_sequential": seq[l]} for l in labels},
+        pipe.config_from_dict({"nodes": {ids[l]: {"priority": prio[l], "is_sequential": seq[l]} for l in labels},
                                "max_concurrency": mc})
+    elif route == "p":
+        pipe.config_from_dict({"nodes": {ids[l]: {"priority": prio[l]} for l in labels}, "max_concurrency": mc})
+    elif route == "t":
+        pipe.config_from_dict({"nodes": {"g": {"priority": shared}}, "max_concurrency": mc})
 
     from tawazi import cfg as twz_cfg
 
     saved_run_debug = twz_cfg.RUN_DEBUG_NODES
     twz_cfg.RUN_DEBUG_NODES = dbg is not None
     try:
-        call = pipe if sel[0] == "whole" else pipe.executor(**{sel[0] + "_nodes": [sel[1]]})
+        call = pipe if sel[0] == "whole" else pipe.executor(**{sel[0] + "_nodes": [ids[sel[1]]]})
     finally:
         twz_cfg.RUN_DEBUG_NODES = saved_run_debug
     if dbg is not None:
         # debug rules aside (C13 owns them): which debug nodes accompany a selection is read off the graph
         if sel[0] != "whole":
-            exec_set = {l for l in labels if l in call.graph.nodes}
+            exec_set = {l for l in labels if ids[l] in call.graph.nodes}
             spec["exec_set"] = exec_set
             if dbg in exec_set:
                 c.cover("w_debug_in_subgraph")
@@ -536,7 +572,7 @@ def run_sched(cfg: Cfg, c: Ctx) -> Any:
             ok = False
             if isinstance(e, TawaziBaseException) and isinstance(e.__cause__, E.InjectedFault):
                 named = e.__cause__.label
-                ok = named in mon.failed and named in str(e) and ".py:" in str(e)
+                ok = named in mon.failed and ids[named] in str(e) and ".py:" in str(e)
             elif isinstance(e, E.InjectedFault):
                 # allowed only when no call location is known; the harness always has one
                 ok = False
